@@ -176,10 +176,11 @@ class TRec(Ty):
     """Immutable record.  `fields` maps field name -> Ty, in declaration order.
     `cls` optionally names the real class ("module:Qual") for inlining methods / cross-checks."""
 
-    def __init__(self, name: str, fields: dict, cls: str | None = None):
+    def __init__(self, name: str, fields: dict, cls: str | None = None, is_dict: bool = False):
         self.name = name
         self.fields = dict(fields)
         self.cls = cls
+        self.is_dict = is_dict   # a dict with exactly these constant keys (result of a to_dict-style function)
         self.key = f"Rec[{name}]"
 
     def sort(self):
